@@ -57,7 +57,10 @@ struct Carrier {
     payload: Vec<u8>,
 }
 fn carrier() -> Carrier {
-    let payload: Vec<u8> = (0..53u8).map(|i| i.wrapping_mul(7).wrapping_add(3)).collect();
+    carrier_with((0..53u8).map(|i| i.wrapping_mul(7).wrapping_add(3)).collect())
+}
+/// ... and one without any payload bytes (a header-only file): every recorded digest still true
+fn carrier_with(payload: Vec<u8>) -> Carrier {
     let h: Vec<(u32, u32, Value)> = vec![
         (1000, T_STRING, s_v("sigcarrier")), (1001, T_STRING, s_v("1")), (1002, T_STRING, s_v("1")),
         (1004, T_I18N, s_v("s")), (1022, T_STRING, s_v("noarch")),
@@ -170,6 +173,7 @@ pub fn run(args: &Args) {
     let mut rng = Rng::new(args.seed());
     if let Some(cases) = args.get("cases") {
         let car = carrier();
+        let car_empty = carrier_with(vec![]);
         for (i, line) in std::fs::read_to_string(cases).unwrap().lines().enumerate() {
             if line.trim().is_empty() { continue; }
             let c: Value = serde_json::from_str(line).unwrap();
@@ -179,10 +183,42 @@ pub fn run(args: &Args) {
             } else {
                 run_case(&mut t, &c, &car, i, i % 8);
             }
+            // cases with a header+payload signature also on the carrier whose payload is empty
+            if c["pgp"] != "absent" && i % 2 == 0 {
+                run_case(&mut t, &c, &car_empty, i, (i / 2) % 8);
+            }
         }
     }
     let nflips = args.num("flips", 400);
     let wd = gen_::Workdir::new("c02");
+    // a hand-encoded package whose payload digest algorithm entry holds two items (the first counts), signed by the
+    // library with a real key: its payload is covered by the recorded payload digest like any other
+    for key in ["ed25519", "rsa4096"] {
+        let d = json!({"md5":"absent","sha1":"absent","sha256":"match","payload":"match","algo":"sha256"});
+        let raw = crate::c03::materialise(&d, "second");
+        let signed = guarded(|| -> Result<Vec<u8>, rpm::Error> {
+            let mut p = Package::parse(&mut &raw[..])?;
+            p.sign_with_timestamp(gen_::signer(key), 1_600_000_000u32)?;
+            let mut b = vec![];
+            p.write(&mut Plain(&mut b))?;
+            Ok(b)
+        });
+        let Ok(Ok(base)) = signed else { t.emit(json!({"event":"CarrierSkipped","why":"hand-encoded carrier could not be signed","key":key})); continue };
+        let (Ok(orig), Some(lay)) = (Package::parse(&mut &base[..]), rawhdr::layout(&base)) else { continue };
+        let mut e = verify_real(&base, &orig, key);
+        e["event"] = json!("Tampered"); e["key"] = json!(key); e["what"] = json!("untouched (two-item algorithm entry)"); e["ep_start"] = json!(true);
+        let ok = e["verify"] == "ok";
+        t.emit(e);
+        if !ok { t.emit(json!({"event":"CarrierSkipped","why":"the signed hand-encoded carrier does not verify","key":key})); continue; }
+        let plen = base.len() - lay.payload_at;
+        for bit in 0..(plen * 8).min(96) {
+            let mut m = base.clone();
+            m[lay.payload_at + bit / 8] ^= 1 << (bit % 8);
+            let mut e = verify_real(&m, &orig, key);
+            e["event"] = json!("Tampered"); e["key"] = json!(key); e["what"] = json!(format!("two-item algorithm entry; flip payload bit {bit}")); e["ep_start"] = json!(true);
+            t.emit(e);
+        }
+    }
     // carriers: per key a small package, and (two keys; all keys in the thorough tier) one whose main header is
     // several tens of KiB - larger than any I/O buffer a verifier might read it through
     let mut carriers: Vec<(&str, bool)> = gen_::KEYS.iter().map(|k| (*k, false)).collect();
